@@ -25,7 +25,7 @@ fn op_url(announce: &[u8], hash: &[u8]) -> String {
 }
 
 /// One HTTP exchange on the listener: returns (request target, Host header); answers with `body`.
-fn serve_one(listener: &std::net::TcpListener, status: &str, body: &[u8]) -> Option<(Vec<u8>, Vec<u8>)> {
+pub fn serve_one(listener: &std::net::TcpListener, status: &str, body: &[u8]) -> Option<(Vec<u8>, Vec<u8>)> {
     listener.set_nonblocking(true).ok()?;
     let deadline = std::time::Instant::now() + std::time::Duration::from_secs(8);
     let mut s = loop {
